@@ -1,5 +1,5 @@
 """C14 -- resize, pad and trim keep data centred and attached to its coordinates."""
-import itertools
+import itertools, contextlib, copy
 from fractions import Fraction
 import numpy as np
 from harness.common import cz, cq, cbool, clist, ctup, copt, cres, call_res, import_aa
@@ -7,8 +7,8 @@ from harness.common import cz, cq, cbool, clist, ctup, copt, cres, call_res, imp
 ID = "C14"
 GEN = []
 PROPS = "Props/C14.v"
-COQ_CHECK = ("Model.C14", "check")
-COQ_FALLBACK = ("Model.C14", "spec_ok")
+COQ_CHECK = ("Model.C14k", "check")
+COQ_FALLBACK = ("Model.C14k", "spec_ok")
 COQ_IMPORTS = ""
 SHARD = 400
 RULE = ("exhaustive enumeration (see exhaustive_subspace) of (input shape, target shape) pairs in every parity "
@@ -18,24 +18,38 @@ RULE = ("exhaustive enumeration (see exhaustive_subspace) of (input shape, targe
         "with buffers 0..2 through Mask2D.zoom_region / Array2D.zoomed_around_mask; Imaging.apply_mask (automatic "
         "padding) over masks, kernels, pixel scales and origins observing .data/.noise_map/.grids.uniform/.mask; "
         "Mask2D.resized_from + Grid2D.from_mask for the coordinate clause; Imaging.apply_mask followed by "
-        "AbstractDataset.trimmed_after_convolution_from on inputs that get padded; plus a random stream of larger shapes. "
+        "AbstractDataset.trimmed_after_convolution_from on inputs that get padded; the output geometry of the zoom routines "
+        "(Array2D.zoomed_around_mask: shape / pixel scales / origin for buffers -3..3; Mask2D.mask_centre, zoom_centre, "
+        "zoom_offset_pixels, zoom_offset_scaled, zoom_shape_native, zoom_mask_unmasked) over all small masks and 9 geometries "
+        "(anisotropic, asymmetric origins, pixel scales 2**-30 .. 2**21); HISTORIES on one object: an Array2D observed 6-12 "
+        "times (same shape with both mask pad values, pad, trim, zoom) with in-place edits arr[...] = v in between, a Mask2D "
+        "read / edited mask[y, x] = ... / re-read, an Imaging dataset masked several times, re-masked from a masked / padded / "
+        "trimmed result, its data edited in place; every array under test is built in 7 ways (fresh, .native, "
+        "store_native=True, from slim values, result of arithmetic, deep copy, general.yaml native_binned_only=True) and the "
+        "data of Imaging in 6; values are integers (including 0 and 31-bit mantissas) times 2**sc, sc in {0, -40, 40, -70, 30}; "
+        "every call is followed by a fingerprint comparison of the objects the caller still holds; plus a random stream of larger shapes. "
         "Every case is non-trivial (it runs an anchored routine); distinct = distinct JSON input.")
 EXHAUSTIVE = {
     "quick": "util resize: all shapes 1..5 x 1..5 to all targets 0..6 x 0..6; Array2D/Mask2D.resized_from: shapes 1..4^2 to "
              "targets 1..6^2 (mask drawn per case); pad / trim / pad-then-trim / trimmed_array_from: shapes 1..4^2 x kernels "
              "{1,3,5,7}^2; enlarge-then-shrink: shapes 1..4^2 x enlargements 0..3 per axis; zoom: every mask with H*W <= 7, "
-             "buffer cycling 0,1,2; apply_mask: every mask with H*W <= 6 with kernel (3,3)",
+             "buffer cycling 0,1,2 (negative buffers -1,-2 on every third); zoom geometry (mask properties and "
+             "zoomed_around_mask's mask with buffers cycling 0,1,-1,2,-2,0,-3 on every second one) for the same masks; apply_mask: every mask with H*W <= 6 with kernel (3,3)",
     "thorough": "util resize: shapes 1..8^2 to targets 0..9^2; Array2D/Mask2D.resized_from: shapes 1..7^2 to targets 1..9^2; "
                 "pad/trim family: shapes 1..6^2 x kernels {1,3,5,7}^2; enlarge-then-shrink: shapes 1..6^2 x enlargements 0..4; "
-                "zoom: every mask with H*W <= 9 (each buffer 0,1,2 up to H*W <= 8, cycling above); apply_mask: every mask with H*W <= 8, kernels (3,3),(1,5),(5,3)",
+                "zoom: every mask with H*W <= 9 (each buffer 0,1,2 up to H*W <= 8, cycling above), zoom geometry for the same masks; apply_mask: every mask with H*W <= 8, kernels (3,3),(1,5),(5,3)",
 }
-TRUSTED = ["correspondence harness harness/c14.py (exact: integer data, dyadic pixel scales / origins, outputs converted with Fraction)",
+TRUSTED = ["correspondence harness harness/c14.py (exact: integer data times powers of two, dyadic pixel scales / origins, outputs converted with "
+           "Fraction); for histories with in-place edits the harness tracks which content a re-masked dataset refers to (the live unmasked "
+           "dataset, or the snapshot held by a dataset whose own mask is all False)",
            "numpy slicing a[lo:hi] (Model.C14.pyslice incl. negative bounds), element-wise array *= invert(mask) "
            "(Model.C14.mask_apply), np.where/amin/amax (Model.C14.zoom_region), bool<->float casts of Mask2D.resized_from",
            "Array2D slim<->native storage (property C01): the model keeps the native array; the harness reads .native/.slim"]
 ASSUMPTIONS = ["kernels of the proved clauses are odd and >= 1 per axis (the property's quantifier); even kernels are exercised for "
                "correspondence only (the automatic padding then changes parity and shifts coordinates by half a pixel)",
-               "target shapes >= 0, buffers >= 0, noise maps positive on unmasked pixels (Imaging's own check), pixel scales non-zero",
+               "target shapes >= 0, noise maps positive on unmasked pixels (Imaging's own check), pixel scales non-zero; "
+               "Mask2D.trimmed_array_from with an image shape LARGER than the mask (negative pad sizes, python negative slice indices) is "
+               "exercised for correspondence only",
                "array values arbitrary (theorems polymorphic in the element type / over R); correspondence uses integers"]
 
 _tally = {}
@@ -50,18 +64,31 @@ def ca2(a): return ctup([czarr(a[0]), cbarr(a[1])])
 def cgeom(g): return ctup([cq(Fraction(x)) for x in g])
 def cqq(p): return ctup([cq(p[0]), cq(p[1])])
 
-def to_int(v):
-    f = float(v)
-    if f != int(f): raise ValueError("non-integer value in an integer-valued case")
-    return int(f)
-def zout(a): return [[to_int(v) for v in row] for row in np.asarray(a).tolist()] if np.asarray(a).ndim == 2 else []
+def to_int(v, sc=0):
+    """the integer n with v == n * 2**sc exactly (values are generated as integers times a power of two)"""
+    fv = Fraction(float(v)) / (Fraction(2) ** sc)
+    if fv.denominator != 1: raise ValueError("value is not an integer multiple of the case's scale")
+    return int(fv)
+def zout(a, sc=0): return [[to_int(v, sc) for v in row] for row in np.asarray(a).tolist()] if np.asarray(a).ndim == 2 else []
 def bout(a): return [[bool(v) for v in row] for row in np.asarray(a).tolist()] if np.asarray(a).ndim == 2 else []
-def a2out(arr): return [zout(np.array(arr.native)), bout(np.array(arr.mask))]
+def a2out(arr, sc=0): return [zout(np.array(arr.native), sc), bout(np.array(arr.mask))]
 def fr(x): return Fraction(float(x))
 
 # ------------------------------------------------------------------ generators
-def values(h, w, rng, lo=-9, hi=9):
-    return [[rng.choice([v for v in range(lo, hi + 1) if v != 0]) for _ in range(w)] for _ in range(h)]
+BIGV = [2 ** 30 + 1, 2 ** 31 - 3, 16777217, 2 ** 29 + 5]      # > 24 significant bits: not representable in float32
+def values(h, w, rng, lo=-9, hi=9, wide=False):
+    """non-zero small integers; wide=True mixes in exact zeros and integers with > 24 significant bits"""
+    pool = [v for v in range(lo, hi + 1) if v != 0]
+    def one():
+        if wide:
+            u = rng.random()
+            if u < 0.12 and lo <= 0: return 0
+            if u < 0.30: return rng.choice(BIGV) * (1 if lo > 0 else rng.choice([1, -1]))
+        return rng.choice(pool)
+    return [[one() for _ in range(w)] for _ in range(h)]
+DVS = ["fresh", "native", "sn", "arith", "resized", "cfg"]           # how the data / noise map of an Imaging were obtained
+VARS = ["fresh", "native", "sn", "slim", "arith", "cfg", "copy"]          # how the Array2D under test was obtained
+SCS = [0, -40, 0, 40, 0, -70, 30]                                  # values are integers times 2**sc
 def rmask(h, w, rng, p=None):
     p = rng.choice([0.0, 0.3, 0.6, 0.85]) if p is None else p
     return [[rng.random() < p for _ in range(w)] for _ in range(h)]
@@ -69,7 +96,9 @@ def all_masks(h, w):
     for bits in itertools.product([False, True], repeat=h * w):
         yield [list(bits[y * w:(y + 1) * w]) for y in range(h)]
 GEOMS = [("1", "1", "0", "0"), ("1/2", "2", "1", "-2"), ("2", "1/4", "-1/2", "3/4"), ("1/4", "1/2", "1/4", "0"),
-         ("3/2", "3", "3", "-3/2"), ("1", "3/2", "-2", "3")]
+         ("3/2", "3", "3", "-3/2"), ("1", "3/2", "-2", "3"),
+         ("1/1073741824", "1/536870912", "3/1073741824", "-5/536870912"),      # tiny pixel scales (2**-30), origin of the same order
+         ("1048576", "2097152", "-3145728", "1048576"), ("1/1024", "512", "5", "-256")]
 ODD = [1, 3, 5, 7]
 
 def needs_pad(m, k):
@@ -99,7 +128,8 @@ def gen_inputs(tier, rng):
     for h, w in itertools.product(range(1, S + 1), repeat=2):
         for r0, r1 in itertools.product(range(1, R + 1), repeat=2):
             i += 1
-            yield {"op": "arr_resize", "a": [values(h, w, rng), rmask(h, w, rng)], "rs": [r0, r1], "mpv": i % 2}
+            yield {"op": "arr_resize", "a": [values(h, w, rng, wide=True), rmask(h, w, rng)], "rs": [r0, r1], "mpv": i % 2,
+                   "var": VARS[i % len(VARS)], "sc": SCS[i % 7]}
             yield {"op": "mask_resize", "m": rmask(h, w, rng, 0.5), "rs": [r0, r1], "padv": [0, 1, 0, 2, -1][i % 5]}
             if (r0 - h) % 2 == 0 and (r1 - w) % 2 == 0 or i % 4 == 0:
                 yield {"op": "resize_coords", "m": rmask(h, w, rng, 0.4), "rs": [r0, r1], "g": list(GEOMS[i % len(GEOMS)])}
@@ -111,11 +141,12 @@ def gen_inputs(tier, rng):
     for h, w in itertools.product(range(1, S + 1), repeat=2):
         for k0, k1 in itertools.product(ODD, repeat=2):
             i += 1
-            a = [values(h, w, rng), rmask(h, w, rng)]
-            yield {"op": "arr_pad", "a": a, "k": [k0, k1], "mpv": i % 2}
-            yield {"op": "arr_trim", "a": [values(h, w, rng), rmask(h, w, rng)], "k": [k0, k1]}
-            yield {"op": "pad_trim", "a": a, "k": [k0, k1], "mpv": (i // 2) % 2}
-            yield {"op": "pad_trimarr", "a": a, "k": [k0, k1]}
+            a = [values(h, w, rng, wide=True), rmask(h, w, rng)]
+            vs = {"var": VARS[i % len(VARS)], "sc": SCS[i % 7]}
+            yield {"op": "arr_pad", "a": a, "k": [k0, k1], "mpv": i % 2, **vs}
+            yield {"op": "arr_trim", "a": [values(h, w, rng, wide=True), rmask(h, w, rng)], "k": [k0, k1], **vs}
+            yield {"op": "pad_trim", "a": a, "k": [k0, k1], "mpv": (i // 2) % 2, **vs}
+            yield {"op": "pad_trimarr", "a": a, "k": [k0, k1], **vs}
         for k0, k1 in ((2, 2), (4, 3), (3, 6), (2, 1)):   # even kernels: correspondence only
             a = [values(h, w, rng), rmask(h, w, rng)]
             yield {"op": "arr_pad", "a": a, "k": [k0, k1], "mpv": 1}
@@ -124,7 +155,8 @@ def gen_inputs(tier, rng):
             yield {"op": "pad_trimarr", "a": a, "k": [k0, k1]}
         for e0, e1 in itertools.product(range(0, 5 if big else 4), repeat=2):
             i += 1
-            yield {"op": "enlarge_shrink", "a": [values(h, w, rng), rmask(h, w, rng)], "rs": [h + e0, w + e1], "mpv": i % 2}
+            yield {"op": "enlarge_shrink", "a": [values(h, w, rng, wide=True), rmask(h, w, rng)], "rs": [h + e0, w + e1], "mpv": i % 2,
+                   "var": VARS[i % len(VARS)], "sc": SCS[i % 7]}
         for d0, d1 in itertools.product(range(-2, 5), repeat=2):   # trimmed_array_from with arbitrary image shapes
             ish = [h - d0, w - d1]
             if ish[0] < 0 or ish[1] < 0: continue
@@ -136,8 +168,14 @@ def gen_inputs(tier, rng):
             for mk in all_masks(h, w):
                 i += 1
                 yield {"op": "zoom_region", "m": mk}
+                if not all(all(r) for r in mk) or i % 8 == 0:
+                    yield {"op": "mask_zoom", "m": mk, "g": list(GEOMS[i % len(GEOMS)])}
+                    if big or i % 2 == 0:
+                        yield {"op": "zoom_geo", "m": mk, "v": values(h, w, rng), "g": list(GEOMS[(i // 3) % len(GEOMS)]),
+                               "b": [0, 1, -1, 2, -2, 0, -3][(i // 2) % 7], "var": VARS[i % len(VARS)]}
+                    if i % 3 == 0: yield {"op": "zoom", "a": [values(h, w, rng, wide=True), mk], "b": -1 - (i // 3) % 2, "var": VARS[i % len(VARS)], "sc": SCS[i % 7]}
                 for b in ((0, 1, 2) if big and h * w <= 8 else (i % 3,)):
-                    yield {"op": "zoom", "a": [values(h, w, rng), mk], "b": b}
+                    yield {"op": "zoom", "a": [values(h, w, rng, wide=True), mk], "b": b, "var": VARS[i % len(VARS)], "sc": SCS[i % 7]}
     yield {"op": "zoom", "a": [values(2, 2, rng), rmask(2, 2, rng, 0.5)], "b": -1}
     # --- Imaging.apply_mask
     lim = 8 if big else 6
@@ -147,13 +185,14 @@ def gen_inputs(tier, rng):
             for mk in all_masks(h, w):
                 for k in kers:
                     i += 1
-                    yield {"op": "apply_mask", "data": values(h, w, rng), "noise": values(h, w, rng, 1, 9), "m": mk,
-                           "k": list(k), "g": list(GEOMS[i % len(GEOMS)])}
+                    yield {"op": "apply_mask", "data": values(h, w, rng, wide=True), "noise": values(h, w, rng, 1, 9, wide=True), "m": mk,
+                           "k": list(k), "g": list(GEOMS[i % len(GEOMS)]), "dv": DVS[i % 6], "sc": SCS[i % 7]}
     for _ in range(3000 if big else 300):
         h, w = rng.randint(1, 7), rng.randint(1, 7)
         k = rng.choice([None, None] + [[a, b] for a in ODD for b in ODD] + [[2, 2], [4, 3]])
-        yield {"op": "apply_mask", "data": values(h, w, rng), "noise": values(h, w, rng, 1, 9),
-               "m": rmask(h, w, rng, rng.choice([0.3, 0.6, 0.9])), "k": k, "g": list(rng.choice(GEOMS))}
+        yield {"op": "apply_mask", "data": values(h, w, rng, wide=True), "noise": values(h, w, rng, 1, 9, wide=True),
+               "m": rmask(h, w, rng, rng.choice([0.3, 0.6, 0.9])), "k": k, "g": list(rng.choice(GEOMS)),
+               "dv": rng.choice(DVS), "sc": rng.choice(SCS)}
     # --- Imaging.apply_mask (padding) then AbstractDataset.trimmed_after_convolution_from (inputs of the padded class only)
     n = 0
     while n < (1500 if big else 250):
@@ -162,8 +201,60 @@ def gen_inputs(tier, rng):
         mk = rmask(h, w, rng, rng.choice([0.3, 0.6, 0.9]))
         if not needs_pad(mk, k): continue
         n += 1
-        yield {"op": "apply_mask_trim", "data": values(h, w, rng), "noise": values(h, w, rng, 1, 9), "m": mk, "k": k,
-               "g": list(rng.choice(GEOMS)), "touch": n % 2 == 0}
+        yield {"op": "apply_mask_trim", "data": values(h, w, rng, wide=True), "noise": values(h, w, rng, 1, 9, wide=True), "m": mk, "k": k,
+               "g": list(rng.choice(GEOMS)), "touch": n % 2 == 0, "dv": DVS[n % 5], "sc": SCS[n % 7]}
+    # --- histories: ONE object observed several times / edited in place / re-read (every observation is a Coq case)
+    def arr_steps(h, w, mk):
+        st = []
+        for _ in range(rng.randint(5, 8)):
+            c = rng.random()
+            if c < 0.3:
+                rs = [rng.randint(1, 6), rng.randint(1, 6)]
+                st.append(["resize", rs, 0]); st.append(["resize", rs, 1])          # same object, same shape, other pad value
+            elif c < 0.42: st.append(["pad", [rng.choice(ODD), rng.choice(ODD)], rng.randint(0, 1)])
+            elif c < 0.54: st.append(["trim", [rng.choice(ODD[:3]), rng.choice(ODD[:3])]])
+            elif c < 0.62: st.append(["padtrim", [rng.choice(ODD), rng.choice(ODD)], rng.randint(0, 1)])
+            elif c < 0.70: st.append(["enlshr", [h + rng.randint(0, 3), w + rng.randint(0, 3)], rng.randint(0, 1)])
+            elif c < 0.78 and not all(all(r) for r in mk): st.append(["zoom", rng.randint(-1, 2)])
+            elif c < 0.84 and not all(all(r) for r in mk): st.append(["zoomgeo", rng.randint(-1, 2)])
+            else: st.append(["edit", rng.randrange(h), rng.randrange(w), rng.randint(11, 99)])
+        if st[0][0] == "edit": st.reverse()
+        if st[0][0] == "edit": st.insert(0, ["resize", [h + 1, w], 0])
+        return st + [list(x) for x in st[:2] if x[0] != "edit"]                         # and the first observations once more
+    for n in range(500 if big else 130):
+        h, w = rng.randint(1, 5), rng.randint(1, 5); mk = rmask(h, w, rng, rng.choice([0.0, 0.3, 0.6]))
+        yield {"op": "hist_arr", "a": [values(h, w, rng, wide=True), mk], "var": VARS[n % len(VARS)], "sc": SCS[n % 7], "steps": arr_steps(h, w, mk)}
+    for n in range(400 if big else 110):
+        h, w = rng.randint(1, 5), rng.randint(1, 5); mk = rmask(h, w, rng, rng.choice([0.3, 0.6, 0.85])); cur = [list(r) for r in mk]
+        st = []
+        for _ in range(rng.randint(5, 8)):
+            c = rng.random()
+            if c < 0.15: st.append(["zoom_region"])
+            elif c < 0.25: st.append(["mask_zoom"])
+            elif c < 0.45: st.append(["resize", [rng.randint(1, 6), rng.randint(1, 6)], rng.choice([0, 1, 1, 2])])
+            elif c < 0.55: st.append(["coords", [h + 2 * rng.randint(-1, 2), w + 2 * rng.randint(-1, 2)]])
+            elif c < 0.65: st.append(["trimarr", values(h, w, rng), [h - 2 * rng.randint(0, h // 2), w - 2 * rng.randint(0, w // 2)]])
+            else:
+                y, x = rng.randrange(h), rng.randrange(w)
+                cur[y][x] = not cur[y][x]
+                if all(all(r) for r in cur): cur[y][x] = False; continue          # keep one unmasked pixel
+                st.append(["edit", y, x]); st.append(rng.choice([["zoom_region"], ["mask_zoom"]]))
+        st = [x for x in st if x[0] != "coords" or min(x[1]) >= 1]
+        if not st or st[0][0] == "edit": st.insert(0, ["zoom_region"])
+        if all(all(r) for r in mk): st = [x for x in st if x[0] != "edit"]
+        yield {"op": "hist_mask", "m": mk, "g": list(rng.choice(GEOMS)), "steps": st}
+    for n in range(400 if big else 110):
+        h, w = rng.randint(1, 5), rng.randint(1, 5)
+        k = rng.choice([None, [1, 1], [3, 3], [3, 3], [1, 3], [5, 3], [3, 5]])
+        st = []
+        for j in range(rng.randint(3, 5)):
+            c = rng.random()
+            mkj = rmask(h, w, rng, rng.choice([0.0, 0.3, 0.6, 0.9]))
+            if c < 0.2 and j > 0: st.append(["edit", rng.randrange(h), rng.randrange(w), rng.randint(11, 99)])
+            st.append([rng.choice(["mask", "mask", "chain", "trimchain"]) if j > 0 else "mask", mkj])
+        st.append(["mask", st[0][1]])                                                   # the first mask once more
+        yield {"op": "hist_img", "data": values(h, w, rng, wide=True), "noise": values(h, w, rng, 1, 9, wide=True), "k": k,
+               "g": list(rng.choice(GEOMS)), "dv": DVS[n % 6], "sc": SCS[n % 7], "steps": st}
     # --- random larger shapes
     for _ in range(1200 if big else 200):
         h, w = rng.randint(5, 12), rng.randint(5, 12)
@@ -173,7 +264,10 @@ def gen_inputs(tier, rng):
         yield {"op": "enlarge_shrink", "a": a, "rs": [h + rng.randint(0, 5), w + rng.randint(0, 5)], "mpv": rng.randint(0, 1)}
         k = [rng.choice(ODD + [9]), rng.choice(ODD + [9])]
         yield {"op": "pad_trim", "a": a, "k": k, "mpv": rng.randint(0, 1)}
-        if not all(all(row) for row in a[1]): yield {"op": "zoom", "a": a, "b": rng.randint(0, 3)}
+        if not all(all(row) for row in a[1]):
+            yield {"op": "zoom", "a": a, "b": rng.randint(-2, 3)}
+            yield {"op": "zoom_geo", "m": a[1], "v": a[0], "g": list(rng.choice(GEOMS)), "b": rng.randint(-3, 3), "var": rng.choice(VARS)}
+            yield {"op": "mask_zoom", "m": a[1], "g": list(rng.choice(GEOMS))}
         r2 = [h + 2 * rng.randint(-2, 3), w + 2 * rng.randint(-2, 3)]
         yield {"op": "resize_coords", "m": a[1], "rs": r2, "g": list(rng.choice(GEOMS))}
 
@@ -181,11 +275,41 @@ def gen_inputs(tier, rng):
 def mk_mask(aa, m, g=("1", "1", "0", "0")):
     g = [float(Fraction(x)) for x in g]
     return aa.Mask2D(mask=np.array(m, dtype=bool).reshape(len(m), len(m[0])), pixel_scales=(g[0], g[1]), origin=(g[2], g[3]))
-def mk_arr(aa, a, g=("1", "1", "0", "0")):
-    return aa.Array2D(values=np.array(a[0], dtype=float), mask=mk_mask(aa, a[1], g))
-def held(aa, a):
-    """(native values, mask) as held by Array2D(values=a[0], mask=a[1]): masked entries are zero"""
-    return a2out(mk_arr(aa, a))
+def mk_arr(aa, a, g=("1", "1", "0", "0"), var="fresh", sc=0):
+    """the Array2D under test: freshly built, or DERIVED (.native of a slim array, store_native=True, built from slim
+    values, result of arithmetic); values are the integers a[0] times 2**sc"""
+    mask = mk_mask(aa, a[1], g)
+    v = np.array(a[0], dtype=float).reshape(len(a[0]), len(a[0][0])) * (2.0 ** sc)
+    if var == "native": return aa.Array2D(values=v, mask=mask).native
+    if var == "sn": return aa.Array2D(values=v, mask=mask, store_native=True)
+    if var == "slim" and not all(all(r) for r in a[1]): return aa.Array2D(values=v[~np.array(a[1], dtype=bool)], mask=mask)
+    if var == "arith":
+        x = aa.Array2D(values=v, mask=mask)
+        return (x * 2.0) - x
+    if var == "copy": return copy.deepcopy(aa.Array2D(values=v, mask=mask))
+    return aa.Array2D(values=v, mask=mask)
+@contextlib.contextmanager
+def cfg_native(on):
+    """general.yaml structures.native_binned_only = True (non-default configuration: every Array2D is stored native)"""
+    from autoconf import conf
+    sect = conf.instance["general"]["structures"]
+    old = sect["native_binned_only"]
+    try:
+        if on: sect["native_binned_only"] = True
+        yield
+    finally:
+        sect["native_binned_only"] = old
+def fp_arr(arr):
+    """fingerprint of an Array2D a caller still holds: stored values, mask, geometry"""
+    m = arr.mask
+    return (np.array(arr._array).copy(), np.array(m).copy(), tuple(float(x) for x in m.pixel_scales), tuple(float(x) for x in m.origin))
+def fp_mask(m):
+    return (np.array(m).copy(), tuple(float(x) for x in m.pixel_scales), tuple(float(x) for x in m.origin))
+def fp_eq(f, g):
+    return all((np.array_equal(x, y) if isinstance(x, np.ndarray) else x == y) for x, y in zip(f, g)) and len(f) == len(g)
+def masked0(a):
+    """what an Array2D built from (values, mask) holds natively: masked entries are zero"""
+    return [[[0 if mk else v for v, mk in zip(rv, rm)] for rv, rm in zip(a[0], a[1])], [list(map(bool, r)) for r in a[1]]]
 GEOM_CHK = GEOMS[1]
 def geom_kept(obj):
     """the resized / padded / trimmed object keeps pixel scales and origin (objects are built with GEOM_CHK)"""
@@ -194,110 +318,319 @@ def geom_kept(obj):
     return tuple(mask.pixel_scales) == (want[0], want[1]) and tuple(mask.origin) == (want[2], want[3])
 def parity(s, t): return "".join("e" if (x - y) % 2 == 0 else "o" for x, y in zip(s, t))
 
+def qgeom_of(mask):
+    return [fr(mask.pixel_scales[0]), fr(mask.pixel_scales[1]), fr(mask.origin[0]), fr(mask.origin[1])]
+def cshape_geom(o): return ctup([cpair(o[0]), cgeom(o[1])])
+def str_geom(o): return [o[0], [str(x) for x in o[1]]]
+def zoom_geo_obs(arr, b, bad):
+    """shape, pixel scales and origin of the mask of arr.zoomed_around_mask(buffer=b)"""
+    z = arr.zoomed_around_mask(buffer=b)
+    if np.array(z.mask).any(): bad.append("the zoomed array's mask is not all False")
+    if tuple(np.array(z.native).shape) != tuple(z.mask.shape_native): bad.append("zoomed array and its mask differ in shape")
+    return [[int(z.mask.shape_native[0]), int(z.mask.shape_native[1])], qgeom_of(z.mask)]
+def mask_zoom_obs(mask):
+    mc, zc, op, os_ = mask.mask_centre, mask.zoom_centre, mask.zoom_offset_pixels, mask.zoom_offset_scaled
+    zs, zm = mask.zoom_shape_native, mask.zoom_mask_unmasked
+    if tuple(int(v) for v in zs) != tuple(int(v) for v in zm.shape_native): raise ValueError("zoom_shape_native != shape of zoom_mask_unmasked")
+    if np.array(zm).any(): raise ValueError("zoom_mask_unmasked is not all False")
+    pq = lambda t: [fr(t[0]), fr(t[1])]
+    return [[pq(mc), pq(zc)], [pq(op), pq(os_)], [[int(zm.shape_native[0]), int(zm.shape_native[1])], qgeom_of(zm)]]
+def cmask_zoom(o):
+    return ctup([ctup([cqq(o[0][0]), cqq(o[0][1])]), ctup([cqq(o[1][0]), cqq(o[1][1])]), cshape_geom(o[2])])
+def str_mask_zoom(o):
+    return [[[str(x) for x in q] for q in o[0]], [[str(x) for x in q] for q in o[1]], str_geom(o[2])]
+
+def arr_step(aa, arr, st, sc, bad):
+    """one observation on the Array2D `arr` (which the caller keeps): returns the converted result"""
+    kind = st[0]
+    if kind == "resize": r = arr.resized_from(new_shape=tuple(st[1]), mask_pad_value=st[2])
+    elif kind == "pad": r = arr.padded_before_convolution_from(kernel_shape=tuple(st[1]), mask_pad_value=st[2])
+    elif kind == "trim": r = arr.trimmed_after_convolution_from(kernel_shape=tuple(st[1]))
+    elif kind == "padtrim":
+        r = arr.padded_before_convolution_from(kernel_shape=tuple(st[1]), mask_pad_value=st[2]).trimmed_after_convolution_from(kernel_shape=tuple(st[1]))
+    elif kind == "enlshr":
+        r = arr.resized_from(new_shape=tuple(st[1]), mask_pad_value=st[2]).resized_from(new_shape=tuple(arr.shape_native), mask_pad_value=st[2])
+    elif kind == "zoom":
+        return zout(np.array(arr.zoomed_around_mask(buffer=st[1]).native), sc)
+    elif kind == "zoomgeo":
+        return zoom_geo_obs(arr, st[1], bad)
+    else: raise ValueError(kind)
+    if not geom_kept(r): bad.append("pixel scales / origin not kept by " + kind)
+    return a2out(r, sc)
+def arr_case(st, h, out, g=None):
+    kind = st[0]
+    if kind == "zoomgeo": return f"KZoomGeo {cbarr(h[1])} {cgeom(g)} {cz(st[1])} {cres(out, cshape_geom)}"
+    if kind == "resize": return f"KArrResize {ca2(h)} {cpair(st[1])} {cz(st[2])} {cres(out, ca2)}"
+    if kind == "pad": return f"KArrPad {ca2(h)} {cpair(st[1])} {cz(st[2])} {cres(out, ca2)}"
+    if kind == "trim": return f"KArrTrim {ca2(h)} {cpair(st[1])} {cres(out, ca2)}"
+    if kind == "padtrim": return f"KPadTrim {ca2(h)} {cpair(st[1])} {cz(st[2])} {cres(out, ca2)}"
+    if kind == "enlshr": return f"KEnlargeShrink {ca2(h)} {cpair(st[1])} {cz(st[2])} {cres(out, ca2)}"
+    if kind == "zoom": return f"KZoom {ca2(h)} {cz(st[1])} {cres(out, czarr)}"
+    raise ValueError(kind)
+OLD_ARR = {"arr_resize": lambda i: ["resize", i["rs"], i["mpv"]], "arr_pad": lambda i: ["pad", i["k"], i["mpv"]],
+           "arr_trim": lambda i: ["trim", i["k"]], "pad_trim": lambda i: ["padtrim", i["k"], i["mpv"]],
+           "enlarge_shrink": lambda i: ["enlshr", i["rs"], i["mpv"]], "zoom": lambda i: ["zoom", i["b"]]}
+
+def mask_step(aa, mask, st, m, g, bad):
+    """one observation on the Mask2D `mask` (content m, geometry g); returns (converted output, coq case)"""
+    kind = st[0]
+    if kind == "resize":
+        def f():
+            r = mask.resized_from(new_shape=tuple(st[1]), pad_value=st[2])
+            if not fp_eq(fp_mask(r)[1:], fp_mask(mask)[1:]): bad.append("pixel scales / origin not kept by Mask2D.resized_from")
+            return bout(np.array(r))
+        out = call_res(f)
+        return out, f"KMaskResize {cbarr(m)} {cpair(st[1])} {cz(st[2])} {cres(out, cbarr)}"
+    if kind == "zoom_region":
+        out = call_res(lambda: [int(v) for v in mask.zoom_region])
+        return out, f"KZoomRegion {cbarr(m)} {cres(out, lambda r: ctup([cz(v) for v in r]))}"
+    if kind == "mask_zoom":
+        out = call_res(lambda: mask_zoom_obs(mask))
+        coq = f"KMaskZoom {cbarr(m)} {cgeom(g)} {cres(out, cmask_zoom)}"
+        return (("ok", str_mask_zoom(out[1])) if out[0] == "ok" else out), coq
+    if kind == "trimarr":
+        pv, ish = st[1], st[2]
+        padded = aa.Array2D.no_mask(values=np.array(pv, dtype=float), pixel_scales=(0.25, 4.0), origin=(7.0, 9.0))
+        f0 = fp_arr(padded)
+        t = mask.trimmed_array_from(padded_array=padded, image_shape=tuple(ish))
+        if not fp_eq(f0, fp_arr(padded)): bad.append("trimmed_array_from modified its padded_array argument")
+        if not fp_eq(fp_mask(t.mask)[1:], fp_mask(mask)[1:]): bad.append("trimmed_array_from: geometry of the mask not kept")
+        out = zout(np.array(t.native))
+        return out, f"KTrimArr {cpair((len(m), len(m[0])))} {czarr(pv)} {cpair(ish)} {czarr(out)}"
+    if kind == "coords":
+        def f():
+            m2 = mask.resized_from(new_shape=tuple(st[1]), pad_value=1)
+            grid = np.array(aa.Grid2D.from_mask(mask=m2)).reshape(-1, 2)
+            return [bout(np.array(m2)), [[fr(p[0]), fr(p[1])] for p in grid]]
+        out = call_res(f)
+        pr = lambda o: ctup([cbarr(o[0]), clist([cqq(p) for p in o[1]])])
+        coq = f"KResizeCoords {cbarr(m)} {cpair(st[1])} {cgeom(g)} {cres(out, pr)}"
+        if out[0] == "ok": out = ("ok", [out[1][0], [[str(a), str(b)] for a, b in out[1][1]]])
+        return out, coq
+    raise ValueError(kind)
+
+def img_obs(ds, sc, cfg):
+    grid = np.array(ds.grids.uniform).reshape(-1, 2)
+    mk = np.array(ds.mask).astype(bool)
+    if cfg:    # native_binned_only: .slim is stored native too; the unmasked entries are read off in row-major order
+        d = np.array(ds.data.native)[~mk]; n = np.array(ds.noise_map.native)[~mk]
+    else:
+        d = np.array(ds.data.slim); n = np.array(ds.noise_map.slim)
+        if d.ndim != 1 or n.ndim != 1: raise ValueError(".slim is not one-dimensional")
+    return [bout(mk), [to_int(v, sc) for v in d], [to_int(v, sc) for v in n], [[fr(p[0]), fr(p[1])] for p in grid]]
+def img_case(data, noise, m, k, g, out, chain=None):
+    pr = lambda o: ctup([cbarr(o[0]), ctup([clist([cz(v) for v in o[1]]), clist([cz(v) for v in o[2]])]),
+                         clist([cqq(p) for p in o[3]])])
+    if chain is not None:
+        return (f"KApplyChain {czarr(data)} {czarr(noise)} {cbarr(chain[0])} {cbarr(m)} {copt(k, cpair)} {cbool(chain[1])} "
+                f"{cgeom(g)} {cres(out, pr)}")
+    return (f"KApplyMask {czarr(data)} {czarr(noise)} {cbarr(m)} {copt(k, cpair)} {cgeom(g)} {cres(out, pr)}")
+def img_str(out):
+    return ("ok", [out[1][0], out[1][1], out[1][2], [[str(a), str(b)] for a, b in out[1][3]]]) if out[0] == "ok" else out
+def mk_data(aa, v, gf, dv, sc):
+    """the unmasked data / noise-map Array2D handed to Imaging: fresh, or derived (see mk_arr)"""
+    ps, org = (gf[0], gf[1]), (gf[2], gf[3])
+    x = np.array(v, dtype=float).reshape(len(v), len(v[0])) * (2.0 ** sc)
+    if dv == "resized":      # a larger frame cut down with resized_from (a derived, natively computed array)
+        big = np.pad(x, ((1, 1), (2, 2)), constant_values=77.0)
+        return aa.Array2D.no_mask(values=big, pixel_scales=ps, origin=org).resized_from(new_shape=x.shape)
+    a = aa.Array2D.no_mask(values=x, pixel_scales=ps, origin=org)
+    if dv == "native": return a.native
+    if dv == "sn": return aa.Array2D(values=x, mask=aa.Mask2D.all_false(shape_native=x.shape, pixel_scales=ps, origin=org), store_native=True)
+    if dv == "arith": return (a * 2.0) - a
+    return a
+
 def run_case(inp):
     aa = import_aa()
     import logging; logging.disable(logging.CRITICAL)
     from autoarray.structures.arrays import array_2d_util
     op = inp["op"]
     geom_bad = []
-    def keep(obj, conv):
-        if not geom_kept(obj): geom_bad.append(1)
-        return conv(obj)
+    var, sc = inp.get("var", "fresh"), inp.get("sc", 0)
+    extra = []
     if op == "resize_u":
-        m = np.array(inp["m"], dtype=float)
+        m = np.array(inp["m"], dtype=float); m0 = m.copy()
         out = call_res(lambda: zout(array_2d_util.resized_array_2d_from(
             array_2d=m, resized_shape=tuple(inp["rs"]), origin=tuple(inp["origin"]), pad_value=float(inp["pad"]))))
+        if not np.array_equal(m, m0): geom_bad.append("resized_array_2d_from modified its argument")
         tally("resize_u parity " + parity(inp["rs"], m.shape) + (" grow" if inp["rs"][0] >= m.shape[0] else " shrink")
               + ("/grow" if inp["rs"][1] >= m.shape[1] else "/shrink"))
         coq = f"KResizeU {czarr(inp['m'])} {cpair(inp['rs'])} {cpair(inp['origin'])} {cz(inp['pad'])} {cres(out, czarr)}"
     elif op == "extract_u":
-        m = np.array(inp["m"], dtype=float); r = inp["r"]
+        m = np.array(inp["m"], dtype=float); r = inp["r"]; m0 = m.copy()
         out = call_res(lambda: zout(array_2d_util.extracted_array_2d_from(array_2d=m, y0=r[0], y1=r[1], x0=r[2], x1=r[3])))
+        if not np.array_equal(m, m0): geom_bad.append("extracted_array_2d_from modified its argument")
         coq = f"KExtractU {czarr(inp['m'])} {cz(r[0])} {cz(r[1])} {cz(r[2])} {cz(r[3])} {cres(out, czarr)}"
     elif op == "mask_resize":
-        out = call_res(lambda: keep(mk_mask(aa, inp["m"], GEOM_CHK).resized_from(new_shape=tuple(inp["rs"]), pad_value=inp["padv"]), lambda r: bout(np.array(r))))
-        coq = f"KMaskResize {cbarr(inp['m'])} {cpair(inp['rs'])} {cz(inp['padv'])} {cres(out, cbarr)}"
-    elif op == "arr_resize":
-        out = call_res(lambda: keep(mk_arr(aa, inp["a"], GEOM_CHK).resized_from(new_shape=tuple(inp["rs"]), mask_pad_value=inp["mpv"]), a2out))
-        tally("arr_resize parity " + parity(inp["rs"], (len(inp["a"][0]), len(inp["a"][0][0]))))
-        coq = f"KArrResize {ca2(held(aa, inp['a']))} {cpair(inp['rs'])} {cz(inp['mpv'])} {cres(out, ca2)}"
-    elif op == "arr_pad":
-        out = call_res(lambda: keep(mk_arr(aa, inp["a"], GEOM_CHK).padded_before_convolution_from(
-            kernel_shape=tuple(inp["k"]), mask_pad_value=inp["mpv"]), a2out))
-        coq = f"KArrPad {ca2(held(aa, inp['a']))} {cpair(inp['k'])} {cz(inp['mpv'])} {cres(out, ca2)}"
-    elif op == "arr_trim":
-        out = call_res(lambda: keep(mk_arr(aa, inp["a"], GEOM_CHK).trimmed_after_convolution_from(kernel_shape=tuple(inp["k"])), a2out))
-        coq = f"KArrTrim {ca2(held(aa, inp['a']))} {cpair(inp['k'])} {cres(out, ca2)}"
-    elif op == "pad_trim":
-        k = tuple(inp["k"])
-        out = call_res(lambda: keep(mk_arr(aa, inp["a"], GEOM_CHK).padded_before_convolution_from(
-            kernel_shape=k, mask_pad_value=inp["mpv"]).trimmed_after_convolution_from(kernel_shape=k), a2out))
-        tally("pad_trim kernel " + ("odd" if k[0] % 2 and k[1] % 2 else "even"))
-        coq = f"KPadTrim {ca2(held(aa, inp['a']))} {cpair(k)} {cz(inp['mpv'])} {cres(out, ca2)}"
-    elif op == "enlarge_shrink":
+        mask = mk_mask(aa, inp["m"], GEOM_CHK); f0 = fp_mask(mask)
+        out, coq = mask_step(aa, mask, ["resize", inp["rs"], inp["padv"]], inp["m"], GEOM_CHK, geom_bad)
+        if not fp_eq(f0, fp_mask(mask)): geom_bad.append("Mask2D.resized_from modified the mask")
+    elif op in OLD_ARR:
+        st = OLD_ARR[op](inp)
+        with cfg_native(var == "cfg"):
+            arr = mk_arr(aa, inp["a"], ("1", "1", "0", "0") if op == "zoom" else GEOM_CHK, var, sc); f0 = fp_arr(arr)
+            out = call_res(lambda: arr_step(aa, arr, st, sc, geom_bad))
+            if not fp_eq(f0, fp_arr(arr)): geom_bad.append("the Array2D was modified by " + st[0])
         h, w = len(inp["a"][0]), len(inp["a"][0][0])
-        out = call_res(lambda: keep(mk_arr(aa, inp["a"], GEOM_CHK).resized_from(new_shape=tuple(inp["rs"]), mask_pad_value=inp["mpv"])
-                                    .resized_from(new_shape=(h, w), mask_pad_value=inp["mpv"]), a2out))
-        tally("enlarge_shrink parity " + parity(inp["rs"], (h, w)))
-        coq = f"KEnlargeShrink {ca2(held(aa, inp['a']))} {cpair(inp['rs'])} {cz(inp['mpv'])} {cres(out, ca2)}"
+        if op == "arr_resize": tally("arr_resize parity " + parity(inp["rs"], (h, w)))
+        if op == "pad_trim": tally("pad_trim kernel " + ("odd" if st[1][0] % 2 and st[1][1] % 2 else "even"))
+        if op == "enlarge_shrink": tally("enlarge_shrink parity " + parity(inp["rs"], (h, w)))
+        if op == "zoom": tally("zoom buffer %d" % inp["b"])
+        tally("array variant " + var + (" scaled" if sc else ""))
+        coq = arr_case(st, masked0(inp["a"]), out)
+    elif op == "hist_arr":
+        # ONE Array2D goes through a history of observations and in-place edits; every observation must be what a
+        # freshly built array with the current content gives (model + spec decide, in Coq)
+        a = [[list(r) for r in inp["a"][0]], [list(r) for r in inp["a"][1]]]
+        outs, cases = [], []
+        with cfg_native(var == "cfg"):
+            arr = mk_arr(aa, a, GEOM_CHK, var, sc); f0 = fp_arr(arr)
+            for st in inp["steps"]:
+                if st[0] == "edit":      # arr[...] = v by the user
+                    y, x, v = st[1], st[2], st[3]
+                    if arr.ndim == 2: arr[y, x] = v * 2.0 ** sc
+                    elif not a[1][y][x]: arr[sum(1 for yy in range(len(a[1])) for xx in range(len(a[1][0])) if not a[1][yy][xx] and (yy, xx) < (y, x))] = v * 2.0 ** sc
+                    else: continue
+                    a[0][y][x] = v; f0 = fp_arr(arr); continue
+                o = call_res(lambda: arr_step(aa, arr, st, sc, geom_bad))
+                if not fp_eq(f0, fp_arr(arr)): geom_bad.append("the Array2D was modified by " + st[0])
+                cases.append("(" + arr_case(st, masked0(a), o, GEOM_CHK) + ")")
+                outs.append(("ok", str_geom(o[1])) if st[0] == "zoomgeo" and o[0] == "ok" else o)
+        tally("hist_arr variant " + var)
+        return {"coq": cases[0], "extra_coq": cases[1:], "out": outs, "py_ok": (False if geom_bad else None),
+                "detail": "; ".join(geom_bad) or None, "nontrivial": True, "kind": op}
+    elif op == "hist_mask":
+        m = [list(r) for r in inp["m"]]; g = inp["g"]
+        mask = mk_mask(aa, m, g); f0 = fp_mask(mask)
+        outs, cases = [], []
+        for st in inp["steps"]:
+            if st[0] == "edit":          # mask[y, x] = ... by the user
+                y, x = st[1], st[2]; m[y][x] = not m[y][x]; mask[y, x] = m[y][x]; f0 = fp_mask(mask); continue
+            o, c = mask_step(aa, mask, st, m, g, geom_bad)
+            if not fp_eq(f0, fp_mask(mask)): geom_bad.append("the Mask2D was modified by " + st[0])
+            outs.append(o); cases.append("(" + c + ")")
+        return {"coq": cases[0], "extra_coq": cases[1:], "out": outs, "py_ok": (False if geom_bad else None),
+                "detail": "; ".join(geom_bad) or None, "nontrivial": True, "kind": op}
+    elif op == "hist_img":
+        # ONE Imaging dataset: several masks applied one after the other to the same object, to a masked result
+        # (which must go back to the unmasked data), to a trimmed result; in-place edits of the unmasked data
+        g = inp["g"]; gf = [float(Fraction(x)) for x in g]; k = inp["k"]; dv = inp["dv"]; cfg = dv == "cfg"
+        data = [list(r) for r in inp["data"]]; noise = [list(r) for r in inp["noise"]]
+        outs, cases = [], []
+        with cfg_native(cfg):
+            d0, n0 = mk_data(aa, data, gf, dv, sc), mk_data(aa, noise, gf, dv, sc)
+            psf = None if k is None else aa.Kernel2D.no_mask(values=np.ones(tuple(k)), pixel_scales=(gf[0], gf[1]))
+            ds = aa.Imaging(data=d0, noise_map=n0, psf=psf)
+            fp = lambda: (fp_arr(ds.data), fp_arr(ds.noise_map), (np.array(psf.native).copy() if psf is not None else 0))
+            f0 = fp(); last = None     # last = (dataset, base, content, allfalse, mask given): see below
+            fresh_last = False         # `last` came from ds.apply_mask and ds was not edited since: the chain is a model case too
+            H, W = len(data), len(data[0])
+            for st in inp["steps"]:
+                if st[0] == "edit":
+                    y, x, v = st[1], st[2], st[3]
+                    if ds.data.ndim == 2: ds.data[y, x] = v * 2.0 ** sc
+                    else: ds.data[y * W + x] = v * 2.0 ** sc
+                    data[y][x] = v; f0 = fp(); fresh_last = False; continue
+                mobj = mk_mask(aa, st[1], g); fm = fp_mask(mobj)
+                chain_case = None
+                # which data does the code mask?  apply_mask on the unmasked dataset `ds`: its current content.  On a masked
+                # dataset: its `.unmasked` (the LIVE object it was made from) -- unless its own mask is all False, then the
+                # dataset itself (a snapshot of the data at the time it was made) is taken as the unmasked one.
+                src, base = ds, "live"
+                if st[0] in ("chain", "trimchain") and last is not None:
+                    lobj, lbase, lcontent, lallfalse, lmask = last
+                    src = lobj
+                    padded = tuple(lobj.mask.shape_native) != (H, W)
+                    trimmed = False
+                    if st[0] == "trimchain" and k is not None and padded:            # only a padded dataset is trimmed back
+                        src = lobj.trimmed_after_convolution_from(kernel_shape=tuple(k))
+                        lallfalse = not any(any(r) for r in lmask); trimmed = True
+                    if fresh_last: chain_case = (lmask, trimmed)
+                    base = lcontent if lallfalse else lbase
+                content = [list(r) for r in (data if base == "live" else base)]
+                def f():
+                    nonlocal last
+                    r = src.apply_mask(mask=mobj)
+                    o = img_obs(r, sc, cfg)
+                    allfalse = (not any(any(r_) for r_ in st[1])) and not (k is not None and needs_pad(st[1], k))
+                    last = (r, base, content, allfalse, st[1])
+                    return o
+                o = call_res(f)
+                if not fp_eq(f0[0], fp()[0]) or not fp_eq(f0[1], fp()[1]) or not np.array_equal(f0[2], fp()[2]):
+                    geom_bad.append("apply_mask modified the unmasked dataset (" + st[0] + ")")
+                if not fp_eq(fm, fp_mask(mobj)): geom_bad.append("apply_mask modified the mask it was given")
+                outs.append(img_str(o)); cases.append("(" + img_case(content, noise, st[1], k, g, o) + ")")
+                if chain_case is not None:
+                    cases.append("(" + img_case(content, noise, st[1], k, g, o, chain_case) + ")")
+                    tally("hist_img chain case" + (" after trim" if chain_case[1] else ""))
+                fresh_last = st[0] == "mask" and o[0] == "ok"
+        tally("hist_img data variant " + dv)
+        return {"coq": cases[0], "extra_coq": cases[1:], "out": outs, "py_ok": (False if geom_bad else None),
+                "detail": "; ".join(geom_bad) or None, "nontrivial": True, "kind": op}
     elif op == "trimarr":
         p = inp["p"]; h, w = len(p), len(p[0])
         mask = mk_mask(aa, [[False] * w for _ in range(h)], GEOMS[1])
         padded = aa.Array2D.no_mask(values=np.array(p, dtype=float), pixel_scales=(0.5, 2.0), origin=(1.0, -2.0))
+        f0 = fp_arr(padded)
         t = mask.trimmed_array_from(padded_array=padded, image_shape=tuple(inp["is"]))
         out = zout(np.array(t.native))
         py_ok = None
         if tuple(t.mask.origin) != (1.0, -2.0) or tuple(t.pixel_scales) != (0.5, 2.0): py_ok = False   # keeps the geometry
+        if not fp_eq(f0, fp_arr(padded)): py_ok = False
         coq = f"KTrimArr {cpair((h, w))} {czarr(p)} {cpair(inp['is'])} {czarr(out)}"
         return {"coq": "(" + coq + ")", "out": out, "py_ok": py_ok, "nontrivial": True, "kind": op}
     elif op == "pad_trimarr":
         def f():
-            arr = mk_arr(aa, inp["a"])
+            arr = mk_arr(aa, inp["a"], var=var, sc=sc)
             padded = arr.padded_before_convolution_from(kernel_shape=tuple(inp["k"]))
-            return zout(np.array(padded.mask.trimmed_array_from(padded_array=padded, image_shape=arr.shape_native).native))
-        out = call_res(f)
-        coq = f"KPadTrimArr {ca2(held(aa, inp['a']))} {cpair(inp['k'])} {cres(out, czarr)}"
+            return zout(np.array(padded.mask.trimmed_array_from(padded_array=padded, image_shape=arr.shape_native).native), sc)
+        with cfg_native(var == "cfg"): out = call_res(f)
+        coq = f"KPadTrimArr {ca2(masked0(inp['a']))} {cpair(inp['k'])} {cres(out, czarr)}"
+    elif op == "zoom_geo":
+        with cfg_native(var == "cfg"):
+            arr = mk_arr(aa, [inp["v"], inp["m"]], inp["g"], var, sc); f0 = fp_arr(arr)
+            out = call_res(lambda: zoom_geo_obs(arr, inp["b"], geom_bad))
+            if not fp_eq(f0, fp_arr(arr)): geom_bad.append("the Array2D was modified by zoomed_around_mask")
+        tally("zoom_geo buffer %d" % inp["b"])
+        coq = f"KZoomGeo {cbarr(inp['m'])} {cgeom(inp['g'])} {cz(inp['b'])} {cres(out, cshape_geom)}"
+        if out[0] == "ok": out = ("ok", str_geom(out[1]))
+    elif op == "mask_zoom":
+        mask = mk_mask(aa, inp["m"], inp["g"]); f0 = fp_mask(mask)
+        out, coq = mask_step(aa, mask, ["mask_zoom"], inp["m"], inp["g"], geom_bad)
+        if not fp_eq(f0, fp_mask(mask)): geom_bad.append("the Mask2D was modified by its zoom properties")
     elif op == "zoom_region":
-        out = call_res(lambda: [int(v) for v in mk_mask(aa, inp["m"]).zoom_region])
-        coq = f"KZoomRegion {cbarr(inp['m'])} {cres(out, lambda r: ctup([cz(v) for v in r]))}"
-    elif op == "zoom":
-        out = call_res(lambda: zout(np.array(mk_arr(aa, inp["a"]).zoomed_around_mask(buffer=inp["b"]).native)))
-        tally("zoom buffer %d" % inp["b"])
-        coq = f"KZoom {ca2(held(aa, inp['a']))} {cz(inp['b'])} {cres(out, czarr)}"
+        out, coq = mask_step(aa, mk_mask(aa, inp["m"]), ["zoom_region"], inp["m"], None, geom_bad)
     elif op == "apply_mask":
-        g = inp["g"]; gf = [float(Fraction(x)) for x in g]
+        g = inp["g"]; gf = [float(Fraction(x)) for x in g]; dv = inp.get("dv", "fresh"); cfg = dv == "cfg"
         def f():
-            ps, org = (gf[0], gf[1]), (gf[2], gf[3])
-            data = aa.Array2D.no_mask(values=np.array(inp["data"], dtype=float), pixel_scales=ps, origin=org)
-            noise = aa.Array2D.no_mask(values=np.array(inp["noise"], dtype=float), pixel_scales=ps, origin=org)
-            psf = None if inp["k"] is None else aa.Kernel2D.no_mask(values=np.ones(tuple(inp["k"])), pixel_scales=ps)
+            data, noise = mk_data(aa, inp["data"], gf, dv, sc), mk_data(aa, inp["noise"], gf, dv, sc)
+            psf = None if inp["k"] is None else aa.Kernel2D.no_mask(values=np.ones(tuple(inp["k"])), pixel_scales=(gf[0], gf[1]))
+            f0 = (fp_arr(data), fp_arr(noise))
             ds = aa.Imaging(data=data, noise_map=noise, psf=psf).apply_mask(mask=mk_mask(aa, inp["m"], g))
-            grid = np.array(ds.grids.uniform).reshape(-1, 2)
-            return [bout(np.array(ds.mask)), [to_int(v) for v in np.array(ds.data.slim)],
-                    [to_int(v) for v in np.array(ds.noise_map.slim)], [[fr(p[0]), fr(p[1])] for p in grid]]
-        out = call_res(f)
+            o = img_obs(ds, sc, cfg)
+            if not fp_eq(f0[0], fp_arr(data)) or not fp_eq(f0[1], fp_arr(noise)): geom_bad.append("apply_mask modified the arrays the dataset was built from")
+            return o
+        with cfg_native(cfg): out = call_res(f)
         if out[0] == "ok":
             tally("apply_mask " + ("no psf" if inp["k"] is None else
                                    ("padded" if len(out[1][0]) != len(inp["m"]) or len(out[1][0][0]) != len(inp["m"][0]) else "not padded")))
-        pr = lambda o: ctup([cbarr(o[0]), ctup([clist([cz(v) for v in o[1]]), clist([cz(v) for v in o[2]])]),
-                             clist([cqq(p) for p in o[3]])])
-        coq = (f"KApplyMask {czarr(inp['data'])} {czarr(inp['noise'])} {cbarr(inp['m'])} {copt(inp['k'], cpair)} "
-               f"{cgeom(g)} {cres(out, pr)}")
-        if out[0] == "ok": out = ("ok", [out[1][0], out[1][1], out[1][2], [[str(a), str(b)] for a, b in out[1][3]]])
+        tally("apply_mask data variant " + dv + (" scaled" if sc else ""))
+        coq = img_case(inp["data"], inp["noise"], inp["m"], inp["k"], g, out)
+        out = img_str(out)
     elif op == "apply_mask_trim":
-        g = inp["g"]; gf = [float(Fraction(x)) for x in g]
+        g = inp["g"]; gf = [float(Fraction(x)) for x in g]; dv = inp.get("dv", "fresh")
         def f():
-            ps, org = (gf[0], gf[1]), (gf[2], gf[3])
-            data = aa.Array2D.no_mask(values=np.array(inp["data"], dtype=float), pixel_scales=ps, origin=org)
-            noise = aa.Array2D.no_mask(values=np.array(inp["noise"], dtype=float), pixel_scales=ps, origin=org)
-            psf = aa.Kernel2D.no_mask(values=np.ones(tuple(inp["k"])), pixel_scales=ps)
+            data, noise = mk_data(aa, inp["data"], gf, dv, sc), mk_data(aa, inp["noise"], gf, dv, sc)
+            psf = aa.Kernel2D.no_mask(values=np.ones(tuple(inp["k"])), pixel_scales=(gf[0], gf[1]))
             ds = aa.Imaging(data=data, noise_map=noise, psf=psf).apply_mask(mask=mk_mask(aa, inp["m"], g))
             if inp["touch"]: _ = ds.grids.uniform      # the cached grids exist before the trim
+            f0 = (fp_arr(ds.data), fp_arr(ds.noise_map))
             ds2 = ds.trimmed_after_convolution_from(kernel_shape=tuple(inp["k"]))
+            if not fp_eq(f0[0], fp_arr(ds.data)) or not fp_eq(f0[1], fp_arr(ds.noise_map)): geom_bad.append("the trim modified the padded dataset")
             grid = np.array(ds2.grids.uniform).reshape(-1, 2)
             # the grid lives on the frame of the trimmed data (not on a cached copy of the padded frame)
-            if tuple(ds2.grids.uniform.mask.shape_native) != tuple(ds2.data.shape_native): geom_bad.append(1)
-            return [bout(np.array(ds2.mask)), zout(np.array(ds2.data.native)), zout(np.array(ds2.noise_map.native)),
+            if tuple(ds2.grids.uniform.mask.shape_native) != tuple(ds2.data.shape_native): geom_bad.append("grid of the trimmed dataset is on another frame")
+            return [bout(np.array(ds2.mask)), zout(np.array(ds2.data.native), sc), zout(np.array(ds2.noise_map.native), sc),
                     [[fr(p[0]), fr(p[1])] for p in grid]]
         out = call_res(f)
         tally("apply_mask_trim" + (" grids touched before" if inp["touch"] else ""))
@@ -306,16 +639,9 @@ def run_case(inp):
                f"{cgeom(g)} {cres(out, pr)}")
         if out[0] == "ok": out = ("ok", [out[1][0], out[1][1], out[1][2], [[str(a), str(b)] for a, b in out[1][3]]])
     elif op == "resize_coords":
-        g = inp["g"]
-        def f():
-            m2 = mk_mask(aa, inp["m"], g).resized_from(new_shape=tuple(inp["rs"]), pad_value=1)
-            grid = np.array(aa.Grid2D.from_mask(mask=m2)).reshape(-1, 2)
-            return [bout(np.array(m2)), [[fr(p[0]), fr(p[1])] for p in grid]]
-        out = call_res(f)
+        out, coq = mask_step(aa, mk_mask(aa, inp["m"], inp["g"]), ["coords", inp["rs"]], inp["m"], inp["g"], geom_bad)
         tally("resize_coords parity " + parity(inp["rs"], (len(inp["m"]), len(inp["m"][0]))))
-        pr = lambda o: ctup([cbarr(o[0]), clist([cqq(p) for p in o[1]])])
-        coq = f"KResizeCoords {cbarr(inp['m'])} {cpair(inp['rs'])} {cgeom(g)} {cres(out, pr)}"
-        if out[0] == "ok": out = ("ok", [out[1][0], [[str(a), str(b)] for a, b in out[1][1]]])
     else:
         raise ValueError(op)
-    return {"coq": "(" + coq + ")", "out": out, "py_ok": (False if geom_bad else None), "nontrivial": True, "kind": op}
+    return {"coq": "(" + coq + ")", "out": out, "py_ok": (False if geom_bad else None), "detail": "; ".join(map(str, geom_bad)) or None,
+            "nontrivial": True, "kind": op}
